@@ -65,7 +65,7 @@ fn model_kinds(docs: &[Universe], caps: &[Cap]) -> BTreeMap<NamespaceId, String>
 
 fn store_case(ctx: &mut Ctx, case: u64, rng: &mut Rng, scratch: &Scratch) {
     let file = rng.chance(1, 3);
-    let (mut store, path) = new_store(if file { Backend::File } else { Backend::Memory }, scratch);
+    let (mut store, mut path) = new_store(if file { Backend::File } else { Backend::Memory }, scratch);
     let docs: Vec<Universe> = (1..=3).map(|i| Universe::with(namespace(i), 2)).collect();
     let mut caps = vec![Cap::None; 3];
     let mut trace = vec![];
@@ -136,8 +136,30 @@ fn store_case(ctx: &mut Ctx, case: u64, rng: &mut Rng, scratch: &Scratch) {
             2 if file => {
                 store.flush().unwrap();
                 drop(store);
-                store = Store::persistent(path.as_ref().unwrap()).expect("reopen");
-                trace.push("reopen".into());
+                if rng.chance(1, 3) {
+                    // the same rows in a file of the on-disk format of iroh-docs 0.94..=0.98, which the
+                    // open converts: an upgrade is a reopen like any other (added after seeded change
+                    // agent-C15-8)
+                    let mut p = path.clone().unwrap();
+                    let newp = scratch.path("c07-old-format");
+                    match crate::oldfile::reopen_through_old_format(&mut p, newp) {
+                        Ok(s) => store = s,
+                        Err(Ok(text)) => {
+                            ctx.harness_error(text);
+                            return;
+                        }
+                        Err(Err(e)) => {
+                            ctx.violation(case, "reopen-of-old-format-file-failed", json!({"err": format!("{e:?}"), "trace": trace}));
+                            return;
+                        }
+                    }
+                    path = Some(p);
+                    trace.push("reopen through an old-format file".into());
+                    ctx.count("reopens_through_old_format_files", 1);
+                } else {
+                    store = Store::persistent(path.as_ref().unwrap()).expect("reopen");
+                    trace.push("reopen".into());
+                }
                 ctx.count("reopens", 1);
             }
             3 | 4 => {
